@@ -183,9 +183,9 @@ theorem Validate_step (ks : Keyset) (j : Nat) (s : List Nat × Bool × Int) (t :
   simp only at h1 h2 h3
   subst h1 h2 h3
   have hv := keyset_validateKey_eq x b hx
-  simp only [KeysetGo.Validate.loop1.body, KeysetGo.Validate.loop1.opt_err, KeysetGo.Validate.primaryKeyID,
-    KeysetGo.Validate.loop1.keyIDs_2, KeysetGo.Validate.loop1.hasPrimaryKey_2, KeysetGo.Validate.loop1.numEnabledKeys_2,
-    KeysetGo.Validate.loop1.numEnabledKeys_3, Keyset.vstep]
+  simp only [KeysetGo.Validate.loop1.body, KeysetGo.Validate.loop1.v5, KeysetGo.Validate.v2,
+    KeysetGo.Validate.loop1.v6, KeysetGo.Validate.loop1.v7, KeysetGo.Validate.loop1.v8,
+    KeysetGo.Validate.loop1.v9, Keyset.vstep]
   cases hvk : KeysetGo.validateKey x with
   | none =>
     rw [hvk] at hv
@@ -227,8 +227,8 @@ theorem keyset_Validate_eq (ks : Keyset) (ps : List Bool) (hnil : ks.isNil = fal
   rw [← vloop_eq_foldOpt] at hsim
   obtain ⟨hsim1, hsim2⟩ := hsim
   simp only [KeysetGo.Validate, Keyset.validate, pkeysetOf, hnil, Bool.false_eq_true, ↓reduceIte,
-    KeysetGo.Validate.numEnabledKeys_4, KeysetGo.Validate.hasPrimaryKey_3, KeysetGo.Validate.loop1,
-    KeysetGo.Validate.keyIDs, KeysetGo.Validate.hasPrimaryKey, KeysetGo.Validate.numEnabledKeys]
+    KeysetGo.Validate.v12, KeysetGo.Validate.v11, KeysetGo.Validate.loop1,
+    KeysetGo.Validate.v1, KeysetGo.Validate.v3, KeysetGo.Validate.v4]
   by_cases he : ks.Key = []
   · simp [he, pkeysOf]
   · have hl : ks.Key.length ≠ 0 := fun h => he (List.eq_nil_of_length_eq_zero h)
@@ -287,7 +287,7 @@ theorem keyset_Validate_nilKey (ks : Keyset) (h : ∃ k ∈ ks.Key, k.isNil = tr
           obtain ⟨k, hk, hkn⟩ := hex
           rcases List.mem_cons.mp hk with rfl | hk'
           · exfalso
-            simp only [KeysetGo.Validate.loop1.body, KeysetGo.Validate.loop1.opt_err,
+            simp only [KeysetGo.Validate.loop1.body, KeysetGo.Validate.loop1.v5,
               keyset_validateKey_nil k hkn] at hst
             cases hst
           · exact ⟨k, hk', hkn⟩
